@@ -11,7 +11,8 @@ Open Scope N_scope.
 (* numpy element types as dtype_to_struct sees them (dt[c].str[1:]) *)
 Inductive btype := TShort | TInt | TLong | TFloat | TDouble
                  | TChar (w : N)            (* S<w> and U<w>: w characters *)
-                 | TUnsup (code : bytes).   (* anything else: u1 u2 u4 u8 i1 b1 f2 f16 c8 c16 ... *)
+                 | TUnsup (code : bytes)    (* anything else: u1 u2 u4 u8 i1 b1 f2 f16 c8 c16 ... *)
+                 | TCharU.                  (* char[] : only in hand-written files (C02); the writer never emits it *)
 Record column := mkcol { c_name : bytes; c_type : btype; c_arr : option N }.
 Record table := mktable { t_name : bytes; t_cols : list column; t_rows : list (list cell) }.
 (* enums= dictionary: column name -> (type name, labels) *)
@@ -55,6 +56,7 @@ Definition np_code (t : btype) : bytes :=
   | TShort => [105; 50] | TInt => [105; 52] | TLong => [105; 56] | TFloat => [102; 52] | TDouble => [102; 56]
   | TChar w => 83 :: show_N w
   | TUnsup c => c
+  | TCharU => [83; 48]
   end.
 Definition is_char (t : btype) : bool := match t with TChar _ => true | _ => false end.
 Fixpoint enum_for (c : bytes) (es : list enumdecl) : option enumdecl :=
@@ -117,7 +119,7 @@ Definition np_of (es : list enumdecl) (c : column) : option npk :=
                | Some e => Some (NS (N.of_nat (maxlen (e_labels e))))
                | None => Some (NS w)
                end
-  | TUnsup _ => None
+  | TUnsup _ | TCharU => None
   end.
 Definition sem_col (es : list enumdecl) (c : column) : option pcol :=
   match ctype_word es c, np_of es c with
@@ -186,7 +188,7 @@ Definition row_end_ok (r : list cell) : bool :=
 Fixpoint distinct (l : list bytes) : bool :=
   match l with [] => true | x :: l' => negb (existsb (beq x) l') && distinct l' end.
 Definition col_ok (c : column) : bool :=
-  ident (c_name c) && match c_type c with TUnsup _ => false | TChar w => 0 <? w | _ => true end.
+  ident (c_name c) && match c_type c with TUnsup _ | TCharU => false | TChar w => 0 <? w | _ => true end.
 Definition table_ok (es : list enumdecl) (t : table) : bool :=
   ident (t_name t) && match t_cols t with [] => false | _ => true end
   && forallb col_ok (t_cols t) && distinct (map c_name (t_cols t))
